@@ -53,6 +53,7 @@ pub struct Exec {
 
 pub fn run_one<S: Subject>(s: &mut S, prefix: &[u8], depth: usize, cfg_hash: u64, stats: &mut Stats, want_labels: bool) -> Exec {
     let mut x = Exec { choices: Vec::with_capacity(depth), n_enabled: Vec::with_capacity(depth), labels: vec![], fail: None, panicked: false };
+    set_now_choices(prefix, depth, 0);
     s.reset();
     for i in 0..depth {
         let ops = s.enabled();
@@ -114,6 +115,7 @@ pub fn labels_of<S: Subject>(s: &mut S, choices: &[u8], depth: usize) -> Vec<Str
 /// short by a violation (the violation is recorded in `stats`).
 pub fn explore<S: Subject>(s: &mut S, cfg: &Value, depth: usize, max_dev: usize, stats: &mut Stats) -> bool {
     let cfg_hash = hash64(&cfg.to_string());
+    set_now_cfg(cfg.to_string());
     stats.configs += 1;
     let mut level: Vec<Vec<u8>> = vec![vec![]];
     let mut sampled = 0;
@@ -191,6 +193,7 @@ pub fn cfg_value<T: serde::Serialize>(t: &T) -> Value {
 pub fn bfs<S: Subject>(s: &mut S, cfg: &Value, max_depth: usize, max_states: usize, stats: &mut Stats) -> bool {
     use std::collections::{HashSet, VecDeque};
     let cfg_hash = hash64(&cfg.to_string());
+    set_now_cfg(cfg.to_string());
     stats.configs += 1;
     let mut seen: HashSet<u64> = HashSet::new();
     let mut frontier: VecDeque<Vec<u8>> = VecDeque::new();
